@@ -64,6 +64,7 @@ class Run:
         self.unresolved_calls = 0
         self.extra = {}
         self._seen_keys = set()
+        self.floor_failures = []
 
     # -- recording -------------------------------------------------------------------
     def rule(self, rid, text):
@@ -96,8 +97,10 @@ class Run:
     def floor(self, label, minimum):
         n = self.instances.get(label, 0)
         if n < minimum:
-            raise AnalysisError("instance count for '%s' is %d, below the confirmed floor %d "
-                                "(the rule would pass vacuously)" % (label, n, minimum))
+            # decided in finish(): a violation found elsewhere is reported first (exit 1); with no
+            # violation a rule that matched too little is an analysis error (exit 2), never a pass
+            self.floor_failures.append("instance count for '%s' is %d, below the confirmed floor %d "
+                                       "(the rule would pass vacuously)" % (label, n, minimum))
 
     def note(self, text):
         self.notes.append(text)
@@ -126,6 +129,10 @@ class Run:
             replay_paths.append(rp)
             out.append("REPORT %s rule=%s at %s: %s [key: %s]" % (self.prop, f.rule, f.where, f.message, f.full_key))
             out.append("VIOLATION property=%s replay=%s" % (self.prop, rp))
+        if self.floor_failures and not new:
+            raise AnalysisError("; ".join(self.floor_failures))
+        for ff in self.floor_failures:
+            self.notes.append("floor: " + ff)
         stale = sorted(set(kmap) - {f.full_key for f in listed})
         for s in stale:
             self.notes.append("known finding no longer reported (repaired or construct gone): %s" % s)
